@@ -212,10 +212,10 @@ impl<W: 'static, R: 'static, T: 'static> XGenerator<W, R, T> {
                 })
             }),
             Self::Chain(arr) => either_f({
+                // the parts are consumed one after the other, never collected: a part may be infinite
                 arr.iter().flat_map(move |gen| {
-                    to_native!(gen, Self)
-                        ._iter(ns, rt.clone())
-                        .collect::<Vec<_>>()
+                    let part: BIter<_, _, _> = Box::new(to_native!(gen, Self)._iter(ns, rt.clone()));
+                    part
                 })
             }),
             Self::Slice(gen, start, end) => either_g({
